@@ -133,3 +133,45 @@ claim('C18', 'boundary observer: exception / non-bool return from any entry '
       'huge, off-curve and their duplicates and re-encodings; signatures with '
       'edge r/s, empty and long hashes, invalid/unknown/shared issuer keys.',
       'r or s == 0 mod n outside the quantifier; hangs are inconclusive.')
+claim('C07', 'generator-side ground truth (healthy by construction from a '
+      'SHAKE-256 stream) + boundary observer after the all-checks entry '
+      'points, alone and with weak neighbours',
+      'Quick: 840 healthy RSA keys (2048/3072/4096), 400 EC keys on the eight '
+      'strong curves, healthy signature batches of 1..18 signatures per '
+      'curve, plus mixed batches with every weak family; thorough: ~20k RSA '
+      'keys, 8k EC keys, batches up to 200 signatures.',
+      'The claim is "no accusation in K artifacts" (K in evidence); the design '
+      'false-positive rate is not measurable.')
+claim('C08', 'generator-side ground truth (d and nonces known); per-regime '
+      'miss-rate monitor calibrated on the unchanged tree (spec/regimes.json);'
+      ' hard clauses per execution',
+      'MSB / prefix / suffix / multiplied bias for widths 16..128 at margins '
+      '1..2.2 on all curve classes, counts straddling the 24/48/120 windows, '
+      'two-signature U2F batches on all curves with bits % 32 == 0, GMP '
+      'lc_2exp nonces for all 16 shipped models; other issuers and curves '
+      'interleaved, order shuffled, duplicates.',
+      'Heuristic completeness only as miss rate per regime; gaps are '
+      'region-keyed known finding F12, sporadic misses F12s. A wrong key or '
+      'an accused foreign issuer is always a VIOLATION.')
+claim('C12', 'reference-model monitor: independent transcription of SP 800-22 '
+      'sections 2.1-2.15 (mpmath) evaluated next to every test; range '
+      'contract; boundary, metamorphic and table monitors',
+      'All strings of length <= 12 (quick 10) for Frequency/Runs/cusum range, '
+      '8..11 for Serial/ApEn; random, constant-ish, periodic, one-sided, '
+      'zero-ending, low-rank strings at every parameter threshold +-1 up to '
+      '2^20 bits; oscillating walks with >= 500 cycles; optional parameters; '
+      'complement/reverse/rotate invariances; exact derivation of all '
+      'embedded tables.',
+      'Model validated against the worked examples of SP 800-22. Spectral '
+      'compared for even n only (the standard\'s n/2 is undefined for odd n). '
+      'Universal for L = 6, 7. Known finding F13.')
+claim('C13', 'history + executable model of the decision structure; binomial '
+      'population monitor over p-values of seeded cryptographic generators; '
+      'weak-generator monitor for every documented pair',
+      'All scripted p-value histories of length <= 3 (thorough 4) over a '
+      'threshold alphabet x shapes x levels x repetition minima; 96 (thorough '
+      '768) sequences of 2^20 bits from SHAKE128/PCG64/Philox through every '
+      'test; every documented (weak generator, test family, size) pair with '
+      'several seeds through TestBitString.',
+      'Population monitor power limited by S; see evidence. Known finding F20 '
+      '(xorshift128+ vs LargeBinaryMatrixRank).')
